@@ -43,7 +43,10 @@ type instr struct {
 	ids     map[string]uint32 // name -> id
 	pkgVars map[string]map[string]bool
 	fields  map[string]map[string]map[string]bool // pkg -> type -> field set
-	sites   int
+	// retShared[pkg][func] = variable id: the function returns (a pointer/slice into) that shared variable,
+	// so the local that receives its result is an alias of it (one inter-procedural level)
+	retShared map[string]map[string]uint32
+	sites     int
 }
 
 func (in *instr) id(name string) uint32 {
@@ -58,7 +61,7 @@ func (in *instr) id(name string) uint32 {
 
 func init() {
 	instrumentSched = func(repo, out, hooks string, replace map[string]string) error {
-		in := &instr{ids: map[string]uint32{}, pkgVars: map[string]map[string]bool{}, fields: map[string]map[string]map[string]bool{}}
+		in := &instr{ids: map[string]uint32{}, pkgVars: map[string]map[string]bool{}, fields: map[string]map[string]map[string]bool{}, retShared: map[string]map[string]uint32{}}
 		type pf struct {
 			pkg, path, name string
 			f               *ast.File
@@ -148,6 +151,12 @@ func init() {
 						}
 					}
 				}
+			}
+		}
+		// pass 1.5: functions that return shared storage (two rounds, so that a wrapper of a wrapper is seen)
+		for round := 0; round < 2; round++ {
+			for _, x := range files {
+				in.scanReturns(x.pkg, x.f)
 			}
 		}
 		// pass 2: rewrite
@@ -446,7 +455,11 @@ func (fc *fctx) header(s ast.Stmt, out *[]access) {
 					}
 					break
 				}
-				if id, ok := fc.shared(base); ok {
+				id, ok := fc.shared(base)
+				if !ok {
+					id, ok = fc.callReturnsShared(base)
+				}
+				if ok {
 					if l, ok := x.Lhs[i].(*ast.Ident); ok && l.Obj != nil {
 						if vs, isVS := l.Obj.Decl.(*ast.ValueSpec); !isVS || !fc.topVals[vs] {
 							fc.alias[l.Obj] = id
@@ -605,4 +618,125 @@ func (fc *fctx) block(b *ast.BlockStmt) {
 		return
 	}
 	b.List = fc.list(b.List)
+}
+
+// callReturnsShared: e is a call of a library function known to return shared storage.
+func (fc *fctx) callReturnsShared(e ast.Expr) (uint32, bool) {
+	ce, ok := e.(*ast.CallExpr)
+	if !ok {
+		return 0, false
+	}
+	switch f := ce.Fun.(type) {
+	case *ast.Ident:
+		if id, ok := fc.in.retShared[fc.pkg][f.Name]; ok {
+			return id, true
+		}
+	case *ast.SelectorExpr:
+		if rel, ok := fc.pkgIdent(f.X); ok {
+			if id, ok := fc.in.retShared[rel][f.Sel.Name]; ok {
+				return id, true
+			}
+		}
+	}
+	return 0, false
+}
+
+func stripAddr(e ast.Expr) ast.Expr {
+	for {
+		switch b := e.(type) {
+		case *ast.UnaryExpr:
+			if b.Op == token.AND {
+				e = b.X
+				continue
+			}
+		case *ast.SliceExpr:
+			e = b.X
+			continue
+		case *ast.ParenExpr:
+			e = b.X
+			continue
+		case *ast.IndexExpr:
+			e = b.X // &table[i] / table[i] of pointer elements
+			continue
+		}
+		return e
+	}
+}
+
+// scanReturns records the top-level functions of file f that return (an address into) a shared variable.
+func (in *instr) scanReturns(pkg string, f *ast.File) {
+	fc := &fctx{in: in, pkg: pkg, imports: map[string]string{}, topVals: map[*ast.ValueSpec]bool{}}
+	for _, im := range f.Imports {
+		p, _ := strconv.Unquote(im.Path.Value)
+		if strings.HasPrefix(p, modPath+"/") {
+			rel := strings.TrimPrefix(p, modPath+"/")
+			name := filepath.Base(rel)
+			if im.Name != nil {
+				name = im.Name.Name
+			}
+			fc.imports[name] = rel
+		}
+	}
+	for _, d := range f.Decls {
+		if gd, ok := d.(*ast.GenDecl); ok {
+			for _, s := range gd.Specs {
+				if vs, ok := s.(*ast.ValueSpec); ok {
+					fc.topVals[vs] = true
+				}
+			}
+		}
+	}
+	for _, d := range f.Decls {
+		fd, ok := d.(*ast.FuncDecl)
+		if !ok || fd.Body == nil || fd.Recv != nil {
+			continue
+		}
+		fc.shObjs = map[*ast.Object]string{}
+		fc.alias = map[*ast.Object]uint32{}
+		ast.Inspect(fd.Body, func(n ast.Node) bool {
+			if as, ok := n.(*ast.AssignStmt); ok && len(as.Lhs) == len(as.Rhs) {
+				for i, r := range as.Rhs {
+					base := stripAddr(r)
+					id, ok := fc.shared(base)
+					if !ok {
+						id, ok = fc.callReturnsShared(base)
+					}
+					if ok {
+						if l, ok := as.Lhs[i].(*ast.Ident); ok && l.Obj != nil {
+							if vs, isVS := l.Obj.Decl.(*ast.ValueSpec); !isVS || !fc.topVals[vs] {
+								fc.alias[l.Obj] = id
+							}
+						}
+					}
+				}
+			}
+			return true
+		})
+		ast.Inspect(fd.Body, func(n ast.Node) bool {
+			if _, ok := n.(*ast.FuncLit); ok {
+				return false
+			}
+			if rs, ok := n.(*ast.ReturnStmt); ok {
+				for _, r := range rs.Results {
+					base := stripAddr(r)
+					// returning the VALUE of a scalar global is not an alias; only addresses, slices, maps, pointers matter.
+					// Without types: a bare identifier / selector is treated as an alias only if the result was address-taken,
+					// sliced, or the variable is a tainted local (which itself came from an address/slice/map/pointer).
+					_, bare := r.(*ast.Ident)
+					if id, ok := fc.shared(base); ok {
+						if l, isId := base.(*ast.Ident); bare && isId && l.Obj != nil {
+							if _, tainted := fc.alias[l.Obj]; !tainted {
+								// bare package-level variable returned by value: maps, slices and pointers alias; assume alias
+							}
+						}
+						if in.retShared[pkg] == nil {
+							in.retShared[pkg] = map[string]uint32{}
+						}
+						in.retShared[pkg][fd.Name.Name] = id
+					}
+				}
+			}
+			return true
+		})
+	}
 }
